@@ -1808,8 +1808,13 @@ def ex_swift(ctx):
                         i += 1
                         continue
                     d['algebraic'] = True
-                    d['tag_keys'].append(L[i + 1].code[mk.start(1):mk.end(1)])
-                    d['content_keys'].append(L[i + 1].code[mk.start(2):mk.end(2)])
+                    # the two cases of ContainerCodingKeys are DECLARING positions: a key that is a Swift keyword is written in
+                    # back ticks there (and after `forKey: .`); the wire key is the raw value of the case = the bare name
+                    tk, tesc = unbacktick(L[i + 1].code[mk.start(1):mk.end(1)])
+                    ck, cesc = unbacktick(L[i + 1].code[mk.start(2):mk.end(2)])
+                    d['tag_keys'].append(tk)
+                    d['content_keys'].append(ck)
+                    d['container_keys'] = [{'name': tk, 'escaped': tesc, 'role': 'tag'}, {'name': ck, 'escaped': cesc, 'role': 'content'}]
                     for k in range(3):
                         L[i + k].used = True
                     i += 3
@@ -1830,7 +1835,8 @@ def ex_swift(ctx):
                             break
                         if (mf := SW_FORKEY.search(l3.mask)):
                             what = l3.code[mf.start(2):mf.end(2)]
-                            key = l3.code[mf.start(3):mf.end(3)]
+                            # (a member access may spell a keyword with or without back ticks: SE-0071; the key is the bare name)
+                            key = unbacktick(l3.code[mf.start(3):mf.end(3)])[0]
                             if what.startswith('CodingKeys.'):
                                 d['tag_keys'].append(key)
                             else:
